@@ -18,7 +18,14 @@ namespace SymEngine
 
 static std::vector<unsigned> &sieve_primes()
 {
+#ifdef WITH_SYMENGINE_THREAD_SAFE
+    // one sieve per thread: iterators hold indices into this vector and
+    // clear()/_extend() modify it, so it cannot be shared between threads
+    static thread_local std::vector<unsigned> primes
+        = {2, 3, 5, 7, 11, 13, 17, 19, 23, 29};
+#else
     static std::vector<unsigned> primes = {2, 3, 5, 7, 11, 13, 17, 19, 23, 29};
+#endif
     return primes;
 }
 
